@@ -1190,7 +1190,7 @@ class XsdElement(XsdComponent, ParticleMixin,
                 return True
             if check_occurs and not self.has_occurs_restriction(other):
                 return False
-            return other.is_matching(self.name, self.default_namespace)
+            return other.is_matching(self.name)
         elif isinstance(other, XsdElement):
             if self.name != other.name:
                 if other.name == self.substitution_group and \
@@ -1272,10 +1272,10 @@ class XsdElement(XsdComponent, ParticleMixin,
                 if e.name == self.name or e.name in names:
                     return True
         elif isinstance(other, XsdAnyElement):
-            if other.is_matching(self.name, self.default_namespace):
+            if other.is_matching(self.name):
                 return True
             for e in self.iter_substitutes():
-                if other.is_matching(e.name, self.default_namespace):
+                if other.is_matching(e.name):
                     return True
         return False
 
@@ -1436,10 +1436,10 @@ class Xsd11Element(XsdElement):
                     return True
 
         elif isinstance(other, XsdAnyElement):
-            if other.is_matching(self.name, self.default_namespace):
+            if other.is_matching(self.name):
                 return True
             for e in self.maps.substitution_groups.get(self.name, ()):
-                if other.is_matching(e.name, self.default_namespace):
+                if other.is_matching(e.name):
                     return True
         return False
 
